@@ -177,6 +177,50 @@ Section Proofs.
     specialize (H l).
     destruct (in_dec Z.eq_dec t (times (vals_dedup l))), (in_dec Z.eq_dec t (times l)); tauto.
   Qed.
+  (** *** Algebraic laws of Merge on strictly sorted arrays (via the finite-map view):
+      associative, idempotent, the empty array is a two-sided identity, and the second
+      argument absorbs: merging [b] in again changes nothing. *)
+  Lemma merge_assoc a b c : ssorted a -> ssorted b -> ssorted c ->
+    arr_merge (arr_merge a b) c = arr_merge a (arr_merge b c).
+  Proof.
+    intros Ha Hb Hc.
+    pose proof (proj2 (merge_spec a b Ha Hb)) as Hab.
+    pose proof (proj2 (merge_spec b c Hb Hc)) as Hbc.
+    apply ssorted_ext; [apply merge_spec; auto | apply merge_spec; auto |].
+    intro t. rewrite !merge_lookup by auto.
+    destruct (lookup t c); [reflexivity|]. reflexivity.
+  Qed.
+
+  Lemma merge_idem a : ssorted a -> arr_merge a a = a.
+  Proof.
+    intro Ha. apply ssorted_ext; [apply merge_spec; auto | auto |].
+    intro t. rewrite merge_lookup by auto. destruct (lookup t a); reflexivity.
+  Qed.
+
+  Lemma merge_nil_l a : ssorted a -> arr_merge [] a = a.
+  Proof.
+    intro Ha. assert (Hn : ssorted (V:=V) []) by exact I.
+    apply ssorted_ext; [apply merge_spec; auto | auto |].
+    intro t. rewrite merge_lookup by auto. destruct (lookup t a); reflexivity.
+  Qed.
+
+  Lemma merge_nil_r a : ssorted a -> arr_merge a [] = a.
+  Proof.
+    intro Ha. assert (Hn : ssorted (V:=V) []) by exact I.
+    apply ssorted_ext; [apply merge_spec; auto | auto |].
+    intro t. rewrite merge_lookup by auto. reflexivity.
+  Qed.
+
+  Lemma merge_absorb a b : ssorted a -> ssorted b ->
+    arr_merge (arr_merge a b) b = arr_merge a b.
+  Proof.
+    intros Ha Hb. rewrite merge_assoc by auto. rewrite merge_idem by auto. reflexivity.
+  Qed.
+
+  Lemma vals_merge_eq_arr_merge a b : ssorted a -> ssorted b -> vals_merge a b = arr_merge a b.
+  Proof.
+    intros Ha Hb. rewrite (proj1 (vals_merge_spec a b Ha Hb)), (proj1 (merge_spec a b Ha Hb)). reflexivity.
+  Qed.
 End Proofs.
 
 (** *** The judge's two halves coincide on well-formed cases: whenever the implementation's
